@@ -144,6 +144,10 @@ type ufSig struct {
 }
 
 type TermTable struct {
+	// facts learnt from the current path condition (reset per path): upper bounds and
+	// non-negativity of Int terms, used by a few rewrites (bv2nat(int2bv(t)), abs(t))
+	pathUB     map[*Term]*big.Int
+	pathNonNeg map[*Term]bool
 	IntMode   bool // integer encoding of limb arithmetic: split bv2nat over concatenations
 	rangeVars map[*Term]int // Int variables known to lie in [0, 2^bits)
 	tab   map[termKey]*Term
@@ -1401,6 +1405,9 @@ func (tt *TermTable) IAbs(a *Term) *Term {
 	if a.op == OBV2Nat || a.op == OIAbs || a.op == OIMod {
 		return a
 	}
+	if tt.pathNonNeg[a] || tt.ubound(a) != nil {
+		return a
+	}
 	return tt.un(OIAbs, IntSort, a)
 }
 
@@ -1466,6 +1473,9 @@ func (tt *TermTable) BV2Nat(a *Term) *Term {
 	}
 	if a.op == OInt2BV {
 		m := new(big.Int).Lsh(big.NewInt(1), uint(a.sort.W))
+		if u, ok := tt.pathUB[a.args[0]]; ok && tt.pathNonNeg[a.args[0]] && u.Cmp(m) < 0 {
+			return a.args[0]
+		}
 		return tt.IBin(OIMod, a.args[0], tt.Int(m))
 	}
 	if a.op == OZExt {
@@ -1574,9 +1584,28 @@ func (tt *TermTable) ToInt(a *Term) *Term {
 	return tt.un(OToInt, IntSort, a)
 }
 
+// asIntReal: if the real term is to_real of an integer term (or an integral constant), that integer term
+func (tt *TermTable) asIntReal(a *Term) *Term {
+	if a.op == OToReal {
+		return a.args[0]
+	}
+	if a.op == OConst && a.rat.IsInt() {
+		return tt.Int(a.rat.Num())
+	}
+	return nil
+}
+
 func (tt *TermTable) RBin(op Op, a, b *Term) *Term {
 	if a.sort.K != SReal || b.sort.K != SReal {
 		panic("RBin of non-real")
+	}
+	// integer-valued operands: stay in integer arithmetic (to_real distributes over + - *)
+	if op == OIAdd || op == OISub || op == OIMul {
+		if !(a.op == OConst && b.op == OConst) {
+			if ia, ib := tt.asIntReal(a), tt.asIntReal(b); ia != nil && ib != nil {
+				return tt.ToReal(tt.IBin(op, ia, ib))
+			}
+		}
 	}
 	if bothConst(a, b) {
 		r := new(big.Rat)
